@@ -63,6 +63,9 @@ VARIANTS = [
     ("C03", "neutral", P + "sum.py", "        numpy.bitwise_not(selection, selection)\n        numpy.bitwise_and(selection, weights > 0.0, selection)\n        q = q[selection]", "        selection = numpy.bitwise_not(selection)\n        numpy.bitwise_and(selection, weights > 0.0, selection)\n        q = q[selection]", "fresh mask instead of in-place"),
     ("C03", "mutant", P + "fraction.py", "        w = w * weights\n        w[numpy.isnan(w)] = 0.0\n        w[w < 0.0] = 0.0\n", "        w = numpy.array(w, dtype=numpy.float64)\n        w[numpy.isnan(w)] = 0.0\n        w[w < 0.0] = 0.0\n        w = w * weights\n", "inf * 0 weight reaches the numerator as NaN"),
     # ---------------- round f additions
+    ("C05", "mutant", "histogrammar/defs.py", "            weights = numpy.where(weights > 0.0, weights, 0.0)\n", "            weights = numpy.asarray(weights, dtype=numpy.float64)\n", "weight array not normalised"),
+    ("C05", "mutant", "histogrammar/defs.py", "        elif not weights > 0.0:\n            return\n", "", "non-positive scalar weight reaches _numpy"),
+    ("C05", "neutral", "histogrammar/defs.py", "        elif not weights > 0.0:\n            return\n        self._numpy(data, weights, shape=[None])", "        elif not 0.0 < weights:\n            return None\n        self._numpy(data, weights, shape=[None])", "mirrored test, explicit None"),
     ("C04", "mutant", P + "bag.py", '                        if range == "S" and isinstance(nv["v"], basestring):\n', '                        if False and isinstance(nv["v"], basestring):\n', "string labels decoded as numbers whatever the range"),
     ("C04", "neutral", P + "bag.py", '                        if range == "S" and isinstance(nv["v"], basestring):\n', '                        if isinstance(nv["v"], basestring) and range == "S":\n', "conjuncts swapped"),
     ("C04", "mutant", P + "categorize.py", "            self.contentType = value.name\n", "            self.contentType = type(value).__name__\n", "content type from the Python class name"),
